@@ -169,8 +169,8 @@ def sync_all(op, avs, join, colpolicy):
     return ('frm', idx, cols, {c: {p: red(c, p) for p in idx} for c in cols})
 
 
-def aggregate(fn, avs):
-    """df_sum / df_mean / df_count / df_std: union index, union columns, NaN operands skipped"""
+def aggregate(fn, avs, columns='oj'):
+    """df_sum / df_mean / df_count / df_std: union index, NaN operands skipped; union of the columns, or - with columns='ij' - the common columns"""
     idx = joint([v[1] for v in avs], 'oj')
     frames = [v for v in avs if v[0] == 'frm']
     cols = None
@@ -178,6 +178,8 @@ def aggregate(fn, avs):
         cols = []
         for f in frames:
             cols += [c for c in f[2] if c not in cols]
+        if columns == 'ij':
+            cols = [c for c in cols if all(c in f[2] for f in frames)]
 
     def data(c, p):
         out = []
@@ -241,7 +243,8 @@ def call_real(fn, objs, split, join, columns, wrap=''):
     import pyg_base._pandas as P
     f = getattr(P, fn if fn in AGG else fn + '_')
     if fn in AGG:
-        return f(objs) if split is None else f(objs[:split] if split > 1 else objs[0], objs[split:] if len(objs) - split > 1 else objs[split])
+        kw = dict(columns='ij') if wrap == 'agg-ij' else {}
+        return f(objs, **kw) if split is None else f(objs[:split] if split > 1 else objs[0], objs[split:] if len(objs) - split > 1 else objs[split], **kw)
     if (fn in FOLD or fn in PRE) and (len(objs) != 2 or wrap):
         a = objs[:split] if (split > 1 or 'l' in wrap) else objs[0]
         b = None if split == len(objs) else objs[split:] if (len(objs) - split > 1 or 'r' in wrap) else objs[split]
@@ -281,7 +284,7 @@ PRE = dict(sub='add', div='mul')
 
 def expected(fn, avs, join, columns, split=1):
     if fn in AGG:
-        return aggregate(fn, avs)
+        return aggregate(fn, avs, 'ij' if columns == 'ij:agg' else 'oj')
     if fn in ('min', 'max'):
         return sync_all(fn, avs, join, columns)
     if fn in PRE and len(avs) > 2:
@@ -300,7 +303,7 @@ def run_job(job):
     cls = ':list-operand' if fn in PRE and (len(ops) > 2 or wrap) else ''        # sub_/div_ with a list on either side (pre-reduction)
     avs = [to_av(o) for o in ops]
     try:
-        exp = expected(fn, avs, join, columns, split)
+        exp = expected(fn, avs, join, 'ij:agg' if (fn in AGG and wrap == 'agg-ij') else columns, split)
     except OutOfScope:
         return None
     objs = [build(o) for o in ops]
@@ -407,6 +410,13 @@ def jobs_for(tier, seed):
         ops = [mk_any(rng, family) for _ in range(k)]
         for fn in (AGG if not quick else rng.sample(AGG, 2)):
             add(fn, ops, rng.choice([None, None, 1]) if k == 2 else None)
+    # E'. the aggregates over frames with different column sets under the column policy 'ij': only the common columns
+    rng_e = random.Random(seed + 53)
+    for _ in range(300 if quick else 6000):
+        k = rng_e.choice([2, 3])
+        ops = [mk_any(rng_e, 'f') for _ in range(k)]
+        for fn in AGG:
+            jobs.append(dict(fn=fn, ops=ops, split=None, join='ij', columns='ij', wrap='agg-ij'))
     # F. lists of operands on either side, for every operator that accepts lists, under both join policies. sub_ / div_ reduce each list side
     #    first; add_ / mul_ / min_ / max_ concatenate.  (k operands, how many on the left, which single sides are one-element lists.)
     #    Index sets are drawn independently per operand, so timestamps that occur in only some elements of a list (and not on the other
